@@ -202,9 +202,38 @@ Proof. repeat split; vm_compute; reflexivity. Qed.
 (* ---- catalogue membership ---- *)
 Definition in_catalogue (code : string) : bool := existsb (str_eqb (s code)) catalogue_keys.
 
-Lemma every_static_code_in_catalogue :
-  forallb (fun x => is_dynamic (site_code x) || String.eqb (site_code x) "BAD_LEXEME" || in_catalogue (site_code x))
+(* FALSE on the pinned tree as first requested (only BAD_LEXEME excepted): three more literal codes are passed
+   to new_error (hence to Error.from_name, a dictionary lookup) without being keys of the catalogue.  The exact
+   list of offending sites is pinned below, so a repair or a new offender both change the result. *)
+Definition static_sites_missing_from_catalogue : list site :=
+  List.filter (fun x => negb (is_dynamic (site_code x)) && negb (in_catalogue (site_code x))) emitters.
+
+Example static_sites_missing_from_catalogue_are :
+  static_sites_missing_from_catalogue
+  = [(lexer_file, "Lexer.get_next_token", "BAD_LEXEME", "Error");
+     ("norminette/rules/check_brace.py", "CheckBrace.run", "EXPECTED_BRACE", "Error");
+     ("norminette/rules/check_in_header.py", "CheckInHeader.run", "FORBIDDEN_IN_HEADER", "Error");
+     ("norminette/rules/check_operators_spacing.py", "CheckOperatorsSpacing.check_prefix", "", "Error")].
+Proof. vm_compute. reflexivity. Qed.
+
+Definition codes_missing_from_catalogue : list string :=
+  ["BAD_LEXEME"; "EXPECTED_BRACE"; "FORBIDDEN_IN_HEADER"; ""].
+
+Lemma every_static_code_in_catalogue_partial :
+  forallb (fun x => is_dynamic (site_code x) || existsb (String.eqb (site_code x)) codes_missing_from_catalogue
+                    || in_catalogue (site_code x))
     emitters = true.
+Proof. vm_compute. reflexivity. Qed.
+
+(* every exception is real *)
+Lemma codes_missing_from_catalogue_are_missing :
+  forallb (fun c => negb (in_catalogue c)) codes_missing_from_catalogue = true.
+Proof. vm_compute. reflexivity. Qed.
+
+(* the statement with BAD_LEXEME as the only exception does not hold *)
+Lemma every_static_code_in_catalogue_refuted :
+  forallb (fun x => is_dynamic (site_code x) || String.eqb (site_code x) "BAD_LEXEME" || in_catalogue (site_code x))
+    emitters = false.
 Proof. vm_compute. reflexivity. Qed.
 
 (* the exception is real (recorded finding C08-bad-lexeme-not-in-catalogue) *)
@@ -238,5 +267,6 @@ Print Assumptions only_emitter_INVALID_HEADER.
 Print Assumptions only_emitter_HEADER_PROT.
 Print Assumptions only_emitter_lexical.
 Print Assumptions lexical_codes_complete.
-Print Assumptions every_static_code_in_catalogue.
+Print Assumptions every_static_code_in_catalogue_partial.
+Print Assumptions static_sites_missing_from_catalogue_are.
 Print Assumptions fits_complete.
